@@ -157,7 +157,7 @@ impl XDiscreteDistribution {
                 }
             }
             Self::Poisson(i) => inverse_cdf(i, x).into(),
-            Self::Uniform(i) => (x * ((i.max() - i.min() + 1) as f64) + (i.min() - 1) as f64)
+            Self::Uniform(i) => (x * (i.max() as f64 - i.min() as f64 + 1.0) + (i.min() as f64 - 1.0))
                 .floor()
                 .to_i64()
                 .unwrap()
